@@ -37,6 +37,22 @@ pub fn run(l: &[i128]) -> Vec<i128> {
     paint.blend_mode = MODES[mode];
     paint.anti_alias = aa;
     paint.force_hq_pipeline = hq;
+    if kind == 4 || kind == 5 {
+        use tiny_skia::{Rect, Transform};
+        paint.anti_alias = false;
+        let rect = Rect::from_xywh(x0 as f32, 0.0, len as f32, 1.0).unwrap();
+        if kind == 5 {
+            let (mw, mh) = (extra[0] as u32, extra[1] as u32);
+            let mut m2 = Mask::new(mw, mh).unwrap();
+            for b in m2.data_mut() {
+                *b = 255;
+            }
+            pm.fill_rect(rect, &paint, Transform::identity(), Some(&m2));
+        } else {
+            pm.fill_rect(rect, &paint, Transform::identity(), if has_mask { Some(&mask) } else { None });
+        }
+        return pm.data().iter().map(|x| *x as i128).collect();
+    }
     let op = match kind {
         0 => BlitOp::Rect { x: x0, y: 0, width: len, height: 1 },
         1 => {
